@@ -565,13 +565,13 @@ class ContractMixin:
         return ci
 
     # ------------------------------------------------------------------ loops
-    def loop_with_invariant(self, node, st, kind, iterable=None, reverse=False):
+    def loop_with_invariant(self, node, st, kind, iterable=None, reverse=False, items_of=None):
         qual = st.env.get("__qual__")
         ordinal = self.loop_ordinals.get(id(node))
         ci = self.cur_ci
         if ci is None or qual != self.cur_qual or ordinal is None or ordinal not in ci.invariants:
             if kind == "for" and isinstance(iterable, Val) and isinstance(iterable.ty, (TSeq, TSet, TLSet)) and ci is not None:
-                wl, wh, _t, _r = self.discover_writes(node, st, kind, iterable)
+                wl, wh, _t, _r = self.discover_writes(node, st, kind, iterable, items_of)
                 if not wl and not wh and not any(isinstance(n, (ast.Return, ast.Raise, ast.Break)) for n in ast.walk(node)):
                     # the body changes nothing that is modelled (only opaque / effect-free calls): skipping it is exact
                     self.note_assumption("loop at line %s of %s has no modelled effect and is skipped (assumed to terminate)" % (node.lineno, qual))
@@ -607,7 +607,7 @@ class ContractMixin:
             return out
 
         # 1. discover the write set with one scratch pass over the body
-        wl, wh, types, wrefs = self.discover_writes(node, st, kind, iterable)
+        wl, wh, types, wrefs = self.discover_writes(node, st, kind, iterable, items_of)
         # coerce entry values of locals to their loop types (e.g. [] -> Seq)
         types.update({n: t for n, t in ci.decl.opts.get("locals", {}).items() if n in wl})
         for n, ty in types.items():
@@ -688,6 +688,9 @@ class ContractMixin:
                 elem = Val(iterable.ty.elem, [iterable.t[pos]])
                 self.assume_wellformed(s1, elem)
                 starts = self.assign(node.target, elem, s1, node)
+            elif set_mode and items_of is not None:
+                vx = Val(items_of.ty.val, [z3.Select(a, x.t) for a in items_of.terms[1:]])
+                starts = self.assign(node.target, PyList([x, vx], is_tuple=True), s1, node)
             elif set_mode:
                 starts = self.assign(node.target, x, s1, node)
             else:
@@ -720,7 +723,7 @@ class ContractMixin:
             s1.assume(c)
             yield from self.exec_block(node.orelse, s1)
 
-    def discover_writes(self, node, st, kind, iterable):
+    def discover_writes(self, node, st, kind, iterable, items_of=None):
         s = st.clone()
         s.written = set()
         s.written_locals = set()
@@ -731,7 +734,10 @@ class ContractMixin:
         wl, wh, types = set(), set(), {}
         try:
             if kind == "for":
-                starts = list(self.assign(node.target, fresh(iterable.ty.elem, "_d"), s, node))
+                dummy = fresh(iterable.ty.elem, "_d")
+                if items_of is not None:
+                    dummy = PyList([dummy, fresh(items_of.ty.val, "_dv")], is_tuple=True)
+                starts = list(self.assign(node.target, dummy, s, node))
             else:
                 starts = [(s, ("normal",))]
             self.in_discovery += 1
